@@ -126,3 +126,16 @@ Proof.
     + rewrite P3, list_eqb_refl, (sorted_ascending _ P4). rewrite !andb_true_iff. repeat split; apply Z.eqb_eq; lia.
     + rewrite <- P3. rewrite !andb_true_iff. repeat split; try reflexivity; apply Z.eqb_eq; lia.
 Qed.
+
+(* the ghost-corrected identities hold wherever the invariant holds: no known-finding hypothesis *)
+Theorem invL_holds_adj c l denoms : InvL c l -> holds_C01_adj c denoms l = true.
+Proof.
+  intros I. unfold holds_C01_adj. rewrite !andb_true_iff. repeat split.
+  - apply forallb_forall. intros d _. unfold c01l_custody_adj. rewrite (invL_custody c l d I). apply Z.eqb_refl.
+  - unfold c01l_count, c01_count. rewrite (invL_count c l I). apply Z.eqb_refl.
+  - apply forallb_forall. intros e _. destruct (invL_prod c l (ep_app e) (ep_id e) I) as (P1 & P2 & P3 & P4).
+    unfold c01l_coll_adj, c01l_mint_adj, c01l_ids. unfold pcoll, pmint, pids in *.
+    destruct (prods (vs l) (ep_app e) (ep_id e)) as [pr|].
+    + rewrite P3, list_eqb_refl, (sorted_ascending _ P4). rewrite !andb_true_iff. repeat split; apply Z.eqb_eq; lia.
+    + rewrite <- P3. rewrite !andb_true_iff. repeat split; try reflexivity; apply Z.eqb_eq; lia.
+Qed.
